@@ -111,3 +111,59 @@ Fixpoint aff_at (base : Q) (factors : list Q) (idx : list Z) : Q :=
   | f :: fs, i :: is_ => aff_at (base + f * inject_Z i) fs is_
   | _, _ => base
   end.
+
+(* ---------------------------------------------------------------------------------------------------------------- *)
+(* the property as a statement about the model *)
+Close Scope Q_scope.
+Open Scope Z_scope.
+
+Fixpoint all2b {A B} (f : A -> B -> bool) (a : list A) (b : list B) : bool :=
+  match a, b with
+  | [], [] => true
+  | x :: a', y :: b' => f x y && all2b f a' b'
+  | _, _ => false
+  end.
+
+(* the VM history is the staircase: same start times, every channel holds the voltage (no NaN) *)
+Definition plays (h : hist_t) (st : steps_t) : bool :=
+  all2b (fun (a : Q * list (option Q)) (b : Q * list Q) =>
+           Qeq_bool (fst a) (fst b) &&
+           all2b (fun (x : option Q) (y : Q) => match x with Some v => Qeq_bool v y | None => false end) (snd a) (snd b)) h st.
+
+(* well-formed source: every hold gives one voltage per channel, steps are non-zero *)
+Fixpoint src_wf (channels : nat) (s : src) : bool :=
+  match s with
+  | SHold _ vs => Nat.eqb (length vs) channels
+  | SSeq l => (fix go (l : list src) : bool := match l with [] => true | x :: l' => src_wf channels x && go l' end) l
+  | SRep _ body => src_wf channels body
+  | SIter _ _ step body => negb (step =? 0) && src_wf channels body
+  end.
+
+(* guards that exclude the input classes of the known findings *)
+(* zero-factor-aliases-plain: no index-dependent voltage whose coefficients are all zero *)
+Fixpoint guard_C17_zero_factor (s : src) : bool :=
+  match s with
+  | SHold _ vs => forallb (fun v => match v with VAff _ cs => existsb (fun c => negb (Qeq_bool c 0)) cs | _ => true end) vs
+  | SSeq l => (fix go (l : list src) : bool := match l with [] => true | x :: l' => guard_C17_zero_factor x && go l' end) l
+  | SRep _ body => guard_C17_zero_factor body
+  | SIter _ _ _ body => guard_C17_zero_factor body
+  end.
+(* repetition-entry-state: the ghost flag of the translator model *)
+Definition guard_C17_repetition_entry_state (s : src) : bool := rep_stable_src s.
+
+(* Full statement (OPEN: not proved; the correspondence check tests it on every generated case):
+   under the guards, whenever the pipeline produces a history it is the staircase of the source and the total
+   duration agrees.  (dep-key-shared-across-depths makes the pipeline return Err EAssert and is excluded by `= Ok`.) *)
+Definition C17_staircase_statement : Prop :=
+  forall channels s fuel h t,
+    src_wf channels s = true -> guard_C17_zero_factor s = true -> guard_C17_repetition_entry_state s = true ->
+    pipeline fuel channels s = Ok (h, t) ->
+    plays h (fst (staircase s)) = true /\ Qeq_bool t (snd (staircase s)) = true.
+
+(* the same without the guards: refuted in Props.v *)
+Definition C17_staircase_unguarded (g1 g2 : bool) : Prop :=
+  forall channels s fuel h t,
+    src_wf channels s = true ->
+    (g1 = true -> guard_C17_zero_factor s = true) -> (g2 = true -> guard_C17_repetition_entry_state s = true) ->
+    pipeline fuel channels s = Ok (h, t) ->
+    plays h (fst (staircase s)) = true /\ Qeq_bool t (snd (staircase s)) = true.
